@@ -5,7 +5,7 @@
 (* workload only adds -- the add clocks (per-element vector counters) never decrease and   *)
 (* no replica's read loses an element while no remove tag exists.  zprev is crdt before    *)
 (* the last step.                                                                          *)
-EXTENDS shopcart
+EXTENDS shopcart, Integers
 
 VARIABLES zprev
 zhvars == <<vars, zprev>>
